@@ -14,7 +14,9 @@ import (
 	transfertypes "github.com/cosmos/ibc-go/v3/modules/apps/transfer/types"
 )
 
-// OnRecvPacket will get the denom name from ibc ,generate by port/channel/denom
+// OnRecvPacket will get the denom name from ibc ,generate by port/channel/denom.
+// It never changes the outcome of the transfer: the acknowledgement of the transfer application is
+// returned on every path, whether or not the automatic conversion took place.
 func (k Keeper) OnRecvPacket(
 	ctx sdk.Context,
 	packet channeltypes.Packet,
@@ -34,14 +36,14 @@ func (k Keeper) OnRecvPacket(
 		event.Status = types.STATUS_FAILED
 		event.Message = err.Error()
 		_ = ctx.EventManager().EmitTypedEvent(event)
-		return nil
+		return ack
 	}
 	transferAmount, ok := sdk.NewIntFromString(data.Amount)
 	if !ok {
 		event.Status = types.STATUS_FAILED
 		event.Message = "Change data.Amount type to int error"
 		_ = ctx.EventManager().EmitTypedEvent(event)
-		return nil
+		return ack
 	}
 	receiver, _ := sdk.AccAddressFromBech32(data.Receiver)
 	denom, err := types.IBCDenom(packet.GetDestPort(), packet.GetDestChannel(), data.Denom)
@@ -49,14 +51,14 @@ func (k Keeper) OnRecvPacket(
 		event.Status = types.STATUS_FAILED
 		event.Message = err.Error()
 		_ = ctx.EventManager().EmitTypedEvent(event)
-		return nil
+		return ack
 	}
 
 	if !k.IsDenomRegistered(ctx, denom) {
 		event.Status = types.STATUS_FAILED
 		event.Message = fmt.Sprintf("denom %s not registered", denom)
 		_ = ctx.EventManager().EmitTypedEvent(event)
-		return nil
+		return ack
 	}
 	msg := types.NewMsgConvertCoin(
 		sdk.NewCoin(denom, transferAmount),
@@ -70,14 +72,14 @@ func (k Keeper) OnRecvPacket(
 		event.Status = types.STATUS_FAILED
 		event.Message = err.Error()
 		_ = ctx.EventManager().EmitTypedEvent(event)
-		return nil
+		return ack
 	}
 
 	write()
 	ctx.EventManager().EmitEvents(cctx.EventManager().Events())
 	event.Status = types.STATUS_SUCCESS
 	_ = ctx.EventManager().EmitTypedEvent(event)
-	return nil
+	return ack
 }
 
 func (k Keeper) OnAcknowledgementPacket(
